@@ -79,7 +79,7 @@ func boolAtom(name string, m VMatch) Atom {
 func nilAtom(name string, m VMatch) Atom {
 	return Atom{Name: name, Match: func(cond ssa.Value) (int, int) {
 		x, trueNonNil, ok := condNilTest(cond)
-		if !ok || !m(x) {
+		if !ok || !(m(x) || m(testedValue(x))) {
 			return 0, 0
 		}
 		if trueNonNil {
